@@ -28,6 +28,8 @@ def run(prog, chk):
     chk.decided += ["components are only resolved into contours by util.decomposeCompositeGlyph; no other decomposing pen / component removal outside reviewed functions (R01.7, shared with C15)",
                     "the outline compilers generate a glyph only for a name the glyph set lacks: a source glyph is never replaced by a generated one (R01.8, shared with C02)",
                     "a glyph's width / height is only assigned at the reviewed sites: the compiled advance is the source glyph's own (R01.9)"]
+    chk.decided += ["the caller's outline options reach the outline compiler as given: compileOutlines only overrides the reviewed entries of the forwarded option table "
+                    "(sparse-master tables, optimizeCFF / glyphDataFormat / roundCoordinates / dropImpliedOnCurves of interpolatable masters) and no compiler assigns an outline option to itself (R01.10)"]
     chk.not_decided += ["that drawn coordinates equal the source (fontTools pens)", "composition of nested transforms", "semantics of roundTolerance inside T2CharStringPen"]
     chk.guard(r011, prog, chk)
     chk.guard(r012, prog, chk, "R01.2")
@@ -39,6 +41,7 @@ def run(prog, chk):
     chk.guard(check_single_decomposer, prog, chk, "R01.7")
     chk.guard(check_only_missing_glyphs_added, prog, chk, "R01.8")
     chk.guard(r019, prog, chk)
+    chk.guard(check_outline_option_overrides, prog, chk, "R01.10")
 
 
 # ----------------------------------------------------------------------------- R01.1
@@ -351,7 +354,98 @@ def r019(prog, chk):
     chk.minimum("R01.9", 6)
 
 
+# ----------------------------------------------------------------------------- R01.10 (= R02.17)
+# (compiler class, option) -> why the override does not change what the caller asked for
+REVIEWED_OUTLINE_OVERRIDES = {
+    ("InterpolatableOTFCompiler", "tables"): "sparse layer masters only carry the tables varLib merges",
+    ("InterpolatableOTFCompiler", "optimizeCFF"): "masters must stay unoptimised to be mergeable (R09.9 / R12); the option is applied to the merged font",
+    ("InterpolatableTTFCompiler", "tables"): "sparse layer masters only carry the tables varLib merges",
+    ("InterpolatableTTFCompiler", "glyphDataFormat"): "derived from allQuadratic (R02.5)",
+    ("InterpolatableTTFCompiler", "roundCoordinates"): "masters keep unrounded coordinates, varLib rounds the deltas",
+    ("InterpolatableTTFCompiler", "dropImpliedOnCurves"): "dropping implied points per master would break point compatibility",
+    ("TTFCompiler", "glyphDataFormat"): "derived from allQuadratic (R02.5)",
+}
+# outline options a compiler object may assign to itself, and under which discipline
+REVIEWED_SELF_OPTIONS = {
+    "notdefGlyph": "designspace fallback, only when the caller gave none (is None guard)",
+    "compilingVFDefaultSource": "internal per-source flag of the interpolatable compilers, not a caller option",
+}
+
+
+def check_outline_option_overrides(prog, chk, rule):
+    ix = prog.ix
+    outline_params = set()
+    for q in ("ufo2ft.outlineCompiler.BaseOutlineCompiler", "ufo2ft.outlineCompiler.OutlineOTFCompiler", "ufo2ft.outlineCompiler.OutlineTTFCompiler"):
+        init = ix.find_method(ix.get_class(q), "__init__")
+        need(init is not None, f"{q}.__init__ not found")
+        outline_params |= set(init.params()[1:]) | {a.arg for a in init.node.args.kwonlyargs}
+    outline_params -= {"font", "glyphSet"}
+    need(len(outline_params) >= 8, "outline compiler options not found")
+    methods = [f for f in ix.methods_named("compileOutlines") if f.module.name.startswith("ufo2ft._compilers")]
+    need(len(methods) >= 4, f"compileOutlines methods: {len(methods)}")
+    for f in methods:
+        tabs = [s_ for s_ in A.stmts_of(f.node) if isinstance(s_, ast.Assign) and isinstance(s_.value, ast.Call) and A.callee_name(s_.value) == "prune_unknown_kwargs"
+                and len(s_.targets) == 1 and isinstance(s_.targets[0], ast.Name)]
+        need(len(tabs) == 1 and T(tabs[0].value.args[0]) == "self.__dict__", f"cannot interpret {f.short}: forwarded option table")
+        kw = tabs[0].targets[0].id
+        cls = f.cls.name
+        writes = []  # (node, key or None)
+        for n in A.body_nodes(f.node):
+            if isinstance(n, (ast.Assign, ast.AugAssign, ast.Delete)):
+                tg = n.targets if isinstance(n, (ast.Assign, ast.Delete)) else [n.target]
+                for t in tg:
+                    for el in (t.elts if isinstance(t, (ast.Tuple, ast.List)) else [t]):
+                        if isinstance(el, ast.Subscript) and isinstance(el.value, ast.Name) and el.value.id == kw:
+                            writes.append((n, el.slice.value if isinstance(el.slice, ast.Constant) else None))
+                        elif isinstance(el, ast.Name) and el.id == kw and n is not tabs[0]:
+                            writes.append((n, None))
+            elif isinstance(n, ast.Call) and isinstance(n.func, ast.Attribute) and isinstance(n.func.value, ast.Name) and n.func.value.id == kw \
+                    and n.func.attr in ("pop", "update", "setdefault", "clear", "popitem", "__setitem__", "__delitem__"):
+                if n.func.attr in ("pop", "setdefault", "__setitem__", "__delitem__") and n.args and isinstance(n.args[0], ast.Constant):
+                    writes.append((n, n.args[0].value))
+                elif n.func.attr == "update" and not n.args and n.keywords and all(k.arg for k in n.keywords):
+                    writes += [(n, k.arg) for k in n.keywords]
+                elif n.func.attr == "update" and len(n.args) == 1 and isinstance(n.args[0], ast.Dict) and all(isinstance(k, ast.Constant) for k in n.args[0].keys):
+                    writes += [(n, k.value) for k in n.args[0].keys]
+                else:
+                    writes.append((n, None))
+        ctor = [c for c in A.body_nodes(f.node) if isinstance(c, ast.Call) and any(k.arg is None and T(k.value) == kw for k in c.keywords)]
+        need(len(ctor) == 1, f"cannot interpret {f.short}: outline compiler construction")
+        for k in ctor[0].keywords:
+            if k.arg is not None and k.arg != "glyphSet":
+                writes.append((ctor[0], k.arg))
+        for n, key in writes:
+            ok = key is not None and (cls, key) in REVIEWED_OUTLINE_OVERRIDES
+            chk.ob(rule, f"{f.short}|option '{key}' overridden on the way to the outline compiler", ok, where(f, n), detail=REVIEWED_OUTLINE_OVERRIDES.get((cls, key), T(n, 80)),
+                   message=f"{f.short}: the caller's `{key if key is not None else T(n, 50)}` option is overridden on the way to the outline compiler (`{T(n, 70)}`): "
+                           f"the outlines are no longer compiled with the options the caller asked for")
+        chk.ob(rule, f"{f.short}|the option table is the compiler's own fields pruned to the outline compiler's parameters", True, where(f, tabs[0]), detail=T(tabs[0], 90), nontrivial=False)
+    # no compiler assigns an outline option to itself
+    n = 0
+    for fi in ix.functions.values():
+        if not fi.module.name.startswith("ufo2ft._compilers") or isinstance(fi.node, ast.Lambda):
+            continue
+        for s_, t, v in [x for p_ in sorted(outline_params) for x in attr_stores(fi, p_)]:
+            if isinstance(t.value, ast.Name) and t.value.id == "self":
+                n += 1
+                if t.attr == "glyphOrder":
+                    continue  # R03.8 decides this one (never)
+                ok = t.attr in REVIEWED_SELF_OPTIONS
+                if ok and t.attr == "notdefGlyph":
+                    ok = any(o == "is" and l == "self.notdefGlyph" and r == "None" for o, l, r in facts(prog, fi, s_))
+                chk.ob(rule, f"{fi.short}|self.{t.attr} assigned", ok, where(fi, s_), detail=REVIEWED_SELF_OPTIONS.get(t.attr, T(s_, 80)),
+                       message=f"{fi.short} assigns the outline option `{t.attr}` on the compiler object (`{T(s_, 70)}`): every source compiled afterwards gets this value "
+                               f"instead of the caller's")
+    chk.minimum(rule, 10)
+
+
 MUTANTS = [
+    M("non-default CFF masters ignore the caller's roundTolerance (seeded C01i)", "ufo2ft/_compilers/interpolatableOTFCompiler.py", "InterpolatableOTFCompiler.compileOutlines",
+      "kwargs['optimizeCFF'] = CFFOptimization.NONE", "kwargs['optimizeCFF'] = CFFOptimization.NONE\nif not self.compilingVFDefaultSource:\n    kwargs['roundTolerance'] = None", rule="R01.10"),
+    M("static OTF compiler drops the tolerance from the option table", "ufo2ft/_compilers/baseCompiler.py", "BaseCompiler.compileOutlines",
+      "kwargs = prune_unknown_kwargs(self.__dict__, self.outlineCompilerClass)", "kwargs = prune_unknown_kwargs(self.__dict__, self.outlineCompilerClass)\nkwargs.pop('roundTolerance', None)", rule="R01.10"),
+    M("compiler object rewrites its own tolerance", "ufo2ft/_compilers/baseCompiler.py", "BaseInterpolatableCompiler.compile",
+      "self.glyphSets = self.preprocess(ufos)", "self.glyphSets = self.preprocess(ufos)\nself.roundTolerance = None", rule="R01.10"),
     M("zero-width layer glyphs take the default layer's advance (seeded C01h)", "ufo2ft/util.py", "_GlyphSet.from_layer",
       "return self", "for glyphName, glyph in self.items():\n    if glyphName in font and not glyph.width:\n        glyph.width = font[glyphName].width\nreturn self", rule="R01.9"),
     M("reversal switched off unless a top-level component is mirrored (seeded C15g)", "ufo2ft/util.py", "decomposeCompositeGlyph",
